@@ -131,6 +131,9 @@ func v2ParamModel(p M) M {
 	} else if b, _ := p["required"].(bool); b {
 		out["required"] = true
 	}
+	if b, _ := p["allowEmptyValue"].(bool); b {
+		out["allowEmptyValue"] = true
+	}
 	sch := M{}
 	for k, v := range p {
 		switch k {
@@ -348,6 +351,14 @@ func modelV3(doc M) M {
 						e := M{"schema": nsSchema(pp["schema"], true)}
 						if b, _ := pp["required"].(bool); b {
 							e["required"] = true
+						}
+						// the permission may sit on the parameter or (where the converter puts it) on its schema
+						if b, _ := pp["allowEmptyValue"].(bool); b {
+							e["allowEmptyValue"] = true
+						} else if sm, ok := pp["schema"].(M); ok {
+							if b, _ := sm["allowEmptyValue"].(bool); b {
+								e["allowEmptyValue"] = true
+							}
 						}
 						params[fmt.Sprint(pp["in"], ":", pp["name"])] = e
 					}
